@@ -8,6 +8,8 @@ CONSTANTS
   Vals <- MCVals
   MaxS = 6
   SVals <- MCSVals
+  MaxSteps = 2
+  StepVals <- MCStepVals
   Variant = "axis0"
 INVARIANT StableShape
 INVARIANT StableInRange
